@@ -28,7 +28,7 @@ def main():
                 "quick_cmd": "./check %s --tier quick" % pid,
                 "thorough_cmd": "./check %s --tier thorough" % pid,
                 "evidence_file": "/verif/evidence/%s.json" % pid,
-                "replay_cmd_template": "cat {path}/failed.txt {path}/native.txt  # inputs: {path}/replay.txt, VP_REPLAY={path}/replay.txt <native build line in native.txt>",
+                "replay_cmd_template": "./check %s --replay {path}" % pid,
                 "engine": m.get("engine", "cbmc-src"),
                 "level_claimed": {"category": "model_checking",
                                   "text": m["text"], "design_ref": m.get("design_ref", "DESIGN.md §4 " + pid)},
